@@ -2907,7 +2907,7 @@ def _get_slice_type_params(
 
     fst_ = get_slice_sep(self, start, stop, len_body, cut, ret_ast, asts[-1],
                          loc_first, loc_last, bound_ln, bound_col, bound_end_ln, bound_end_col,
-                         options, 'type_params', '', '', ',', False, False)
+                         options, 'type_params', '', '', ',', 0, False)
 
     if cut and not body:  # everything was cut, need to remove brackets
         (_, _, bound_end_ln, bound_end_col), (name_ln, name_col) = bound_func(self)
